@@ -145,6 +145,12 @@ def store_case(rng, tmp):
     store.write(path)
     disk = read_raw(path)
     keys.append('store:written' + (':after-' + stopped if stopped else ''))
+    # statement check (C13/C20): an answer is ANY text the user types (one line); for plainly named forms and inputs the
+    # store must take it -- '%', '=', ':', '#', ';' and blanks included -- or the answer is lost and asked again
+    if stopped is not None and all(a and a != 'DEFAULT' and set(a) <= _PLAIN and b and set(b) <= _PLAIN and '\n' not in c_ and '\r' not in c_
+                                   for a, b, c_ in answers):
+        STORE_VIOLATIONS.append({'op': lines[0][:300], 'model': '-',
+                                 'real': f'an answer could not be stored ({stopped}); answers: {answers!r}'[:400]})
     exp_session = 'ok ' + hx(disk)
     try:
         again = hinputs.InputStore(path, specs)
